@@ -309,6 +309,42 @@ func report(w *World, pc *PropConfig, tier string, seed int, record, partial boo
 			trustedNames = append(trustedNames, c.FuncName)
 		}
 	}
+	// contracts of functions of this module that are used here but whose bodies this property's check does not verify:
+	// say which property's check does, or that none does
+	{
+		mine := map[string]bool{}
+		for _, f := range pc.Functions {
+			mine[expandFuncName(f)] = true
+		}
+		others := map[string][]string{}
+		if ents, err := os.ReadDir(filepath.Join(verifRoot, "props")); err == nil {
+			for _, e := range ents {
+				if !strings.HasSuffix(e.Name(), ".json") || strings.HasPrefix(e.Name(), "T") {
+					continue
+				}
+				if opc, err := loadProp(strings.TrimSuffix(e.Name(), ".json")); err == nil && opc.ID != pc.ID {
+					for _, f := range opc.Functions {
+						others[expandFuncName(f)] = append(others[expandFuncName(f)], opc.ID)
+					}
+				}
+			}
+		}
+		idx := w.funcIndex()
+		for n, c := range w.contracts {
+			if c.Trusted || !c.Used || mine[n] {
+				continue
+			}
+			if f := idx[n]; f == nil || len(f.Blocks) == 0 {
+				continue
+			}
+			if ids := others[n]; len(ids) > 0 {
+				sort.Strings(ids)
+				assum = append(assum, "contract of "+strings.ReplaceAll(n, "go.universe.tf/metallb/", "")+" is used here and proved by the check of "+strings.Join(ids, ", "))
+			} else {
+				assum = append(assum, "UNVERIFIED: contract of "+strings.ReplaceAll(n, "go.universe.tf/metallb/", "")+" is used here but no property check proves it")
+			}
+		}
+	}
 	for n, c := range w.contracts {
 		if c.Trusted || !c.Used {
 			continue
